@@ -472,10 +472,14 @@ func transitionLineBreakState(state int, r rune, b []byte, str string) (newState
 
 	defer func() {
 		// Transition into LB30.
-		if newState == lbCP || newState == lbNUCP {
-			ea := propertyEastAsianWidth(r)
-			if ea != prF && ea != prW && ea != prH {
-				newState |= lbCPeaFWHBit
+		if base := newState &^ lbZWJBit; base == lbCP || base == lbNUCP {
+			if nextProperty == prCP {
+				ea := propertyEastAsianWidth(r)
+				if ea != prF && ea != prW && ea != prH {
+					newState |= lbCPeaFWHBit
+				}
+			} else if isCPeaFWH {
+				newState |= lbCPeaFWHBit // LB9: CM and ZWJ keep the flag of their CP.
 			}
 		}
 
